@@ -447,7 +447,7 @@ def gen_scenario(seed):
             top += '_d'
         for st in stmts:
             st['cat'] = top
-        sessions.append({'stmts': stmts, 'script': gen_script(rng, nst), 'cache_templates': rng.random() < 0.3, 'logs': rng.random() < 0.35})
+        sessions.append({'stmts': stmts, 'script': gen_script(rng, nst), 'cache_templates': rng.random() < 0.3, 'logs': rng.random() < 0.35, 'graft': rng.random() < 0.2})
     threads = rng.random() < 0.15
     spec = {'cmd': 'c12', 'property': PROP, 'seed': seed, 'hashseed': seed % 16, 'sessions': sessions, 'threads': threads,
             'order_seed': rng.randrange(1 << 30), 'share_catalog': rng.random() < 0.5}
@@ -536,6 +536,28 @@ class Session:
                 self.obs['parse_rejected'] += 1
                 self.log.append('P parse-err %s' % type(e).__name__)
                 return True
+            if self.sdef.get('graft'):
+                # a caller that assembles its statement from parts parsed at different times (views, query rewriting): the
+                # textually EARLIER part of the tree comes from a second, later parse of the same text
+                try:
+                    later = parse_sql(sql, dialect=self.cur.get('d', 'mindsdb'))
+                    from mindsdb_sql.parser import ast as A
+                    if isinstance(ast, A.Select) and isinstance(later, A.Select):
+                        ast.targets = later.targets
+                        if ast.cte is not None:
+                            ast.cte = later.cte
+                        self.obs['grafted'] += 1
+                    elif isinstance(ast, A.Union) and isinstance(later, A.Union):
+                        ast.left = later.left
+                        self.obs['grafted'] += 1
+                    elif isinstance(ast, A.Update) and isinstance(later, A.Update):
+                        ast.update_columns = later.update_columns
+                        self.obs['grafted'] += 1
+                    elif isinstance(ast, A.Insert) and isinstance(later, A.Insert) and ast.values and len(ast.values) > 1:
+                        ast.values = [later.values[0]] + ast.values[1:]
+                        self.obs['grafted'] += 1
+                except Exception:
+                    pass
             if self.sdef.get('logs'):
                 # a caller that logs what it is about to prepare: printing a tree must not change anything
                 self.obs['tree_logged'] += 1
